@@ -17,7 +17,7 @@ from casecheck import Spec
 
 FAULTS = {"refused": "FRefused", "reset": "FReset", "e500": "F500", "e503": "F503",
           "malformed": "FMalformed", "truncated": "FTruncated", "slow": "FSlow",
-          "stallbody": "FSlow",
+          "stallbody": "FSlow", "nobody": "FMalformed",
           "typedwrong": "FMalformed"}  # a 200 answer whose JSON does not decode into the metadata structure   # headers sent, body stalled: costs the client's overall timeout, like an answer that never starts
 DOCS = {"doc1": "D1", "doc2": "D2", "doc3": "D3", "doc4": "D4", "partial": "DP", "empty": "DE"}
 PATHS = {"gated": "PGated", "excluded": "PExcluded", "callback": "PCallback"}
